@@ -28,7 +28,7 @@ CHECKS = {
    text="no leak and no double drop on every generated history / schedule", note="as C01; double drops are detected by a poisoned-instance marker, use-after-free only where it changes behaviour (valgrind/ASan are not part of the quick tier)", ref="DESIGN.md §5 C09"),
  "C10": dict(engine="E2-locks+E3-locks", technique="property-based testing: generated single-threaded histories of async/try acquisitions, releases, cancellations before/after wake, re-polls with new wakers and reader streams (writer-starvation probe) on a harness-owned executor (E2-locks); generated lock/try/async/cancel thread programs over HybridMutex and HybridRwLock under generated schedules with occupancy counters inside the protected value and a deadlock verdict from the controlled scheduler (E3-locks)",
    text="mutual exclusion held and every acquirer terminated under every generated schedule, including after cancelled (possibly already woken) lock futures", note="sequentially consistent schedules; writer starvation is checked by a deterministic probe (a writer queued behind one reader must get in within 3 generations of overlapping async readers) and as eventual acquisition under schedules, not as a fairness bound under an adversarial scheduler; try_* non-blocking is checked as 'returns, and does not refuse a free lock'", ref="DESIGN.md §5 C10"),
- "C18": dict(engine="iocx E1+E4", technique="property-based testing: generated registration/resolution histories against a (kind, generation) model on global, instance and local containers; generated barrier-aligned thread programs; cross-thread cycle decided in a child process",
+ "C18": dict(engine="iocx E1+E4+E4x+E5", technique="property-based testing: generated registration/resolution histories against a (kind, generation) model keyed on the exact (type, name) over a name universe with confusable names (empty, case / whitespace / NUL / unicode-normalisation variants, very long names) on global, instance and local containers; generated barrier-aligned thread programs; re-registration programs (writers re-register a key that stays registered while readers resolve it, rounds sequenced by atomics, generation-interval oracle); cross-thread cycle decided in a child process",
    text="singleton-once / transient-fresh / key isolation / latest-wins / cycle-panics held on every generated history and thread program (one open known finding: cross-thread dependency cycle blocks instead of panicking)", note="real-thread cases sample this machine's scheduler (statistical replays); hang verdicts need positive /proc evidence, otherwise inconclusive", ref="DESIGN.md §5 C18"),
 }
 
